@@ -4,8 +4,10 @@ CONSTANTS
   Socks = {s1, s2}
   AtomicCheck = TRUE
   DeadBind = FALSE
+  DeadAdopt = FALSE
   MaxDeliver = 2
 INVARIANT NoStuck
 INVARIANT ResultTyped
+INVARIANT NoOrphan
 PROPERTY Eventually
 CHECK_DEADLOCK FALSE
